@@ -60,7 +60,7 @@ theorem C03_input_node_gets_callers_kwargs (P : Program) (s : St) (h : s.additio
 
 /-! Non-vacuity: a two-node chain whose source has a stored result is ready; without it, it is not. -/
 example :
-    let P : Program := { g := ⟨[0, 1], [{ u := 0, v := 1, kwarg := some "a" }], fun _ => {}, 0, 1⟩, cfg := fun _ => {},
+    let P : Program := { g := ⟨[0, 1], [{ u := 0, v := 1, kwarg := some "a" }], fun _ => {}, 0, 1, []⟩, cfg := fun _ => {},
                          body := fun _ _ _ _ => .ret .none, dflt := fun _ _ => .none, inputKw := [] }
     let d : DagRef := { source := 0, dest := some 1, nodes := [0, 1] }
     ready P init d 1 = false ∧ ready P (init.setRes 0 (.str "x")) d 1 = true := by
